@@ -130,6 +130,24 @@ def run(case, ctx, rng):
             if pieces:
                 ctx.eq('bitcnt-after-piece', got[1], want, **det)
         ctx.eq('oneshot==reference', one, ext, **det)
+        if k == 'cuts' and (sum(cuts) + tail) % 2 == 0:
+            # the usual read loop: every piece travels through ONE buffer the caller refills (and scrubs) between updates
+            def reused_buffer():
+                h = make(name); h.initstate()
+                buf = bytearray()
+                for p in pieces:
+                    buf[:] = p
+                    h.update(buf)
+                    for i in range(len(buf)): buf[i] = 0xAA
+                buf[:] = final
+                return h.update(buf, padding=True), bytes(buf)
+            rb = call(reused_buffer)
+            if is_exc(rb, 'TypeError'):
+                ctx.notes['bytearray pieces refused by %s' % name] += 1
+            else:
+                ctx.eq('piecewise==reference', rb if is_exc(rb) else rb[0], ext, pieces_through='one reused bytearray', **det)
+                if not is_exc(rb):
+                    ctx.eq('piecewise==reference', rb[1], final, pieces_through='one reused bytearray: final buffer left unchanged', **det)
     elif k == 'long-stream':
         # a stream whose length needs more than one word of the length field: the counter is preset (as if that many bits had been
         # fed), whole-block pieces follow, then the final piece; reference = same compressions, total length in the length field
